@@ -241,19 +241,34 @@ def Open.has (o : Open) (h : Bytes) : R Bool := do
   let e ← o.idx.lookup h
   return e.isSome
 
+/-- the tail of `tableReader.get`: `len(cmp.CompressedData) == 0` → "failed to get data" -/
+def finishGet (cd : Bytes) : R (Option Bytes) :=
+  if cd.length == 0 then .error .emptyData else .ok (some cd)
+
+/-- what `get` does with the outcome of `NewCompressedChunk` -/
+def afterChunk (r : R Bytes) : R (Option Bytes) :=
+  match r with
+  | .error e => .error e
+  | .ok cd => finishGet cd
+
+/-- `NewCompressedChunk(h, buff)` on the outcome of the read, then `afterChunk` -/
+def getChunk (r : R Bytes) : R (Option Bytes) :=
+  match r with
+  | .error e => .error e
+  | .ok buff => afterChunk (newCompressedChunk buff)
+
+/-- `make([]byte, length)`; `ReadAtWithStats(buff, offset)`; `n != length` for a found index entry -/
+def getEntry (k : ReaderKind) (data : Bytes) (e : Option (Nat × Nat)) : R (Option Bytes) :=
+  match e with
+  | none => .ok none
+  | some (off, len) => getChunk (readAt k data off len)
+
 /-- `tableReader.get`: `none` = absent, `some payload` = the snappy payload whose CRC was verified
 (the caller decodes it). -/
 def Open.get (o : Open) (h : Bytes) : R (Option Bytes) :=
   match o.idx.lookup h with
   | .error e => .error e
-  | .ok none => .ok none
-  | .ok (some (off, len)) =>
-    match readAt o.kind o.data off len with       -- make([]byte, length); ReadAtWithStats; n != length
-    | .error e => .error e
-    | .ok buff =>
-      match newCompressedChunk buff with
-      | .error e => .error e
-      | .ok cd => if cd.length == 0 then .error .emptyData else .ok (some cd)
+  | .ok e => getEntry o.kind o.data e
 
 def insertByOffset (x : Bytes × Nat × Nat) : List (Bytes × Nat × Nat) → List (Bytes × Nat × Nat)
   | [] => [x]
@@ -262,32 +277,20 @@ def insertByOffset (x : Bytes × Nat × Nat) : List (Bytes × Nat × Nat) → Li
 def sortByOffset (xs : List (Bytes × Nat × Nat)) : List (Bytes × Nat × Nat) :=
   xs.foldl (fun acc x => insertByOffset x acc) []
 
-/-- CRC state after `n` further zero bytes (tail-recursive: a 4 GiB zero-filled buffer is not materialised) -/
-def crcZeros : Nat → UInt32 → UInt32
-  | 0, c => c
-  | n + 1, c => crcZeros n (crcByte c 0)
-
-/-- the sequential read loop of `iterateAllChunks`.  `stale` is the content of the reused read
-buffer (beyond it: zeroes), `bufLen` its length (4 MiB, replaced by a fresh `make([]byte, length)`
-when a record is larger); the error of `io.ReadFull` is discarded, as in the Go code. -/
-def iterLoop (stream : Bytes) : List (Bytes × Nat × Nat) → Nat → Bytes → Nat → List (Bytes × Bytes) →
+/-- the sequential read loop of `iterateAllChunks`.  The read buffer (4 MiB, replaced by a fresh
+`make([]byte, length)` when a record is larger) is always large enough, and a short
+`io.ReadFull` is now returned as the error (both repaired upstream: the earlier code sliced the
+4 MiB buffer out of range and discarded the read error, re-using the previous record's bytes). -/
+def iterLoop (stream : Bytes) : List (Bytes × Nat × Nat) → Nat → List (Bytes × Bytes) →
     List (Bytes × Bytes) × Option ParseError
-  | [], _, _, _, acc => (acc.reverse, none)
-  | (h, _, len) :: rest, pos, stale, bufLen, acc =>
-    let stale := if len > bufLen then [] else stale              -- buf = make([]byte, chunk.length)
-    let bufLen := if len > bufLen then len else bufLen
+  | [], _, acc => (acc.reverse, none)
+  | (h, _, len) :: rest, pos, acc =>
     let got := (stream.drop pos).take len
-    let buf := got ++ stale.drop got.length
-    -- shortcut (same outcome as the general path below): a fresh zero-filled buffer whose last four
-    -- bytes were not reached by the read holds the stored checksum 0 after `got ++ 0…0`
-    if stale.isEmpty && got.length + 4 ≤ len &&
-        ((crcZeros (len - 4 - got.length) (got.foldl crcByte 0xFFFFFFFF)) ^^^ 0xFFFFFFFF) != 0 then
-      (acc.reverse, some .checksum)
+    if got.length < len then (acc.reverse, some .eof)               -- io.ReadFull: (Unexpected)EOF
     else
-    let chunkData := (buf ++ List.replicate (len - buf.length) 0).take len
-    match newCompressedChunk chunkData with
-    | .error e => (acc.reverse, some e)
-    | .ok cd => iterLoop stream rest (pos + got.length) buf bufLen ((h, cd) :: acc)
+      match newCompressedChunk got with
+      | .error e => (acc.reverse, some e)
+      | .ok cd => iterLoop stream rest (pos + got.length) ((h, cd) :: acc)
 
 /-- `tableReader.iterateAllChunks`: (chunks handed to the callback, terminal error if any).
 The callback payloads are still snappy-encoded; a decode failure ends the real iteration. -/
@@ -301,6 +304,6 @@ def Open.iterate (o : Open) : List (Bytes × Bytes) × Option ParseError :=
     | none => ([], none)
     | some last =>
       let total := last.2.1 + last.2.2
-      iterLoop (o.data.take total) sorted 0 [] iterBufSize []
+      iterLoop (o.data.take total) sorted 0 []
 
 end DoltVerif.Corrupt.Table
